@@ -29,7 +29,7 @@ def seeds(ctx):
     for k in keys:
         if k.startswith("extern_"):              # the extern/unsafe seeds are always in
             progs["fam_" + k] = fams[k]
-    for k in range(6 if ctx.tier == "quick" else 60):
+    for k in range(6 if ctx.tier == "quick" else 30):
         progs["gen_%d_%d" % (ctx.seed, k)] = Gen(ctx.seed * 2000003 + k).program()
     return progs
 
@@ -73,7 +73,7 @@ def run(ctx):
     r0 = tlc(ctx, "Driver", timeout=600)
     if r0.violated:
         raise InfraError("Driver.tla violates %s" % r0.violated)
-    sd, allm = build_mutants(ctx, 3 if ctx.tier == "quick" else 12)
+    sd, allm = build_mutants(ctx, 3 if ctx.tier == "quick" else 8)
     eff, recs, r1 = judge_mutants(ctx, allm)
     # seeds must be well typed for the spec (sanity of the catalogue)
     srec, _ = prescribe(ctx, [job(pid, annotate_types(json.loads(json.dumps(p))), what="type") for pid, p in sd.items()])
